@@ -30,14 +30,19 @@ def gen_walk(rng, n):
     mode = rng.weighted([(4, "mixed"), (2, "deep-then-back"), (1, "sawtooth"), (1, "all-back")])
     for i in range(n):
         if mode == "mixed":
-            m = rng.weighted([(55, "step"), (33, "rewind"), (8, "blank"), (4, "comment")])
+            m = rng.weighted([(52, "step"), (31, "rewind"), (7, "blank"), (3, "comment"), (7, "noise")])
         elif mode == "deep-then-back":
             m = "step" if i < n * 2 // 3 else rng.weighted([(85, "rewind"), (10, "step"), (5, "blank")])
         elif mode == "sawtooth":
             m = "step" if (i % 5) < 3 else "rewind"
         else:
             m = "step" if i < n // 2 else "rewind"
-        walk.append([m])
+        if m == "noise":
+            # commands that must leave the execution state alone, whatever they print or reject
+            walk.append(rng.choice([["print"], ["stack"], ["altstack"], ["vfexec"], ["tf", "echo", "1"], ["tf", "int", "0x0102030405"], ["unknown", "frobnicate"],
+                                    ["exec"], ["exec", "OP_NOSUCHOP"], ["exec", "OP_1", "OP_ADDD"], ["help"], ["tf"]]))
+        else:
+            walk.append([m])
     return walk
 
 
@@ -137,6 +142,8 @@ def plan(scn, ref, extra_tail=True):
             net = min(net + 1, L)
         elif k == "rewind":
             net = predict_rewind(ref, net)
+        elif mv[0] in ("print", "stack", "altstack", "vfexec", "tf", "unknown", "exec", "help", "raw"):
+            rendered = list(mv)         # a state-neutral command, delivered as it is
         else:
             continue
         items.append(rendered)
@@ -243,6 +250,14 @@ def evaluate(ctx, scn):
                     fd = first_diff("bb", prev_bb, bb)
                     if fd:
                         ev.add(PROP, "refused-rewind-changes-state", fd, "a refused rewind changed the observable %s" % fd)
+        if kind not in ("step", "rewind") and ci > 0 and c.item[0] != "sync":
+            ev.counters["probe:neutral_command_in_history"] += 1
+            if rep == "crashed":
+                tainted = True
+            elif prev_wb is not None and wb is not None and prev_wb != wb:
+                d = session.wb_diff(prev_wb, wb)
+                ev.add(PROP, "neutral-command-changes-state", d[0].split(":")[0], "`%s` changed the execution state: %s" % (session.render_item(c.item)[:40], "; ".join(d[:3])))
+                tainted = True
         if net < 0 and not tainted:
             ev.add(PROP, "state-mismatch", "net-negative", "more rewinds accepted than steps taken")
             tainted = True
